@@ -1,2 +1,176 @@
-(* Props/C01.v — placeholder while the proofs are being written *)
-From BSV Require Import Base.Hex.
+(* Props/C01.v — pinned statements of property C01 (transaction wire format: parse and serialise are exact
+   inverses).  Statements only; proofs are in Proofs/TxProofs.v.
+   Model: Model/Tx.v, Model/VarInt.v, Model/Script.v (transcriptions of the Rust code, tied by the correspondence run).
+   Spec:  Spec/TxWire.v (wire encoder over raw fields, independent decoder, `canonical`), Spec/ScriptTok.v (C02). *)
+From BSV Require Import Base.Hex Model.Opcodes Model.Script Model.VarInt Model.Tx Spec.ScriptTok Spec.TxWire
+  Proofs.ScriptProofs Proofs.TxProofs Prim.Sha256.
+
+(* ---- 1. compact sizes ------------------------------------------------------------------------------- *)
+Theorem C01_varint_roundtrip :
+  forall n r, (n < 18446744073709551616)%N -> read_varint (write_varint n ++ r) = Ok (n, r).
+Proof. exact varint_roundtrip. Qed.
+Print Assumptions C01_varint_roundtrip.
+
+(* the writer's form is the shortest of all byte strings the reader maps to the same number *)
+Theorem C01_varint_shortest :
+  forall bs n r, read_varint bs = Ok (n, r) -> length (write_varint n) + length r <= length bs.
+Proof. exact write_varint_shortest. Qed.
+Print Assumptions C01_varint_shortest.
+
+(* the writer is the protocol's canonical compact size; the helper VarInt::get_varint_bytes agrees with it (post-fix) *)
+Theorem C01_write_varint_is_compact : forall n, write_varint n = compact n.
+Proof. intros n. symmetry. apply compact_eq_write_varint. Qed.
+Print Assumptions C01_write_varint_is_compact.
+Theorem C01_get_varint_bytes_eq_write_varint : forall n, get_varint_bytes n = write_varint n.
+Proof. exact get_varint_bytes_eq_write_varint. Qed.
+Print Assumptions C01_get_varint_bytes_eq_write_varint.
+
+(* ---- 2. the serialiser is the protocol encoder applied to the value's raw fields (no side condition) -- *)
+Theorem C01_serialise_is_spec : forall t, tx_bytes t = encode_tx_spec (fields_of t).
+Proof. exact serialise_is_spec. Qed.
+Print Assumptions C01_serialise_is_spec.
+
+(* ---- 3. parse (encode f): any number of inputs/outputs, any script lengths, trailing bytes ignored ---- *)
+Theorem C01_parse_encode :
+  forall f r, fields_ok f ->
+    exists t, tx_from_bytes (encode_tx_spec f ++ r) = Ok t /\ tx_bytes t = encode_tx_spec f /\ fields_of t = f.
+Proof. exact parse_encode. Qed.
+Print Assumptions C01_parse_encode.
+
+(* ---- 4. the property's first sentence, on byte strings: canonical (decodable by the independent decoder, every
+        compact size minimal, nothing after the lock time) + scripts the script parser accepts outside C02's
+        class (coinbase data arbitrary)  ==>  parse succeeds and re-serialises to exactly the same bytes ---- *)
+Theorem C01_canonical_roundtrip :
+  forall bs f, canonical bs = true -> decode_fields_spec bs = Some f -> scripts_ok f ->
+    exists t, tx_from_bytes bs = Ok t /\ tx_bytes t = bs /\ fields_of t = f.
+Proof. exact canonical_roundtrip. Qed.
+Print Assumptions C01_canonical_roundtrip.
+
+(* `canonical` is not defined through the library: it is exactly "the encoding of some in-range field tuple" *)
+Theorem C01_canonical_iff :
+  forall bs, canonical bs = true <-> exists f, fields_range f /\ bs = encode_tx_spec f.
+Proof. exact canonical_iff. Qed.
+Print Assumptions C01_canonical_iff.
+Theorem C01_decode_encode :
+  forall f r, fields_range f -> decode_tx_spec (encode_tx_spec f ++ r) = Some (mk_decoded f true r).
+Proof. exact decode_encode. Qed.
+Print Assumptions C01_decode_encode.
+
+(* ---- 5. any accepted byte string (non-minimal compact sizes, trailing bytes, a shortened script of C02's class)
+        normalises to a fixed point of parse-then-serialise -------------------------------------------- *)
+Theorem C01_normalises_to_fixpoint :
+  forall bs t, tx_from_bytes bs = Ok t ->
+    exists t', tx_from_bytes (tx_bytes t) = Ok t' /\ tx_bytes t' = tx_bytes t /\ fields_of t' = fields_of t.
+Proof. exact normalises_to_fixpoint. Qed.
+Print Assumptions C01_normalises_to_fixpoint.
+
+(* every parsed script re-serialises to an accepted script outside C02's class (what makes 5 hold inside that class) *)
+Theorem C01_reparse_script :
+  forall sb s, from_bytes sb = Ok s -> script_ok (to_bytes s) /\ length (to_bytes s) <= length sb.
+Proof. exact reparse_script. Qed.
+Print Assumptions C01_reparse_script.
+
+(* ---- 6. accessors report what the independent decoder reads (txid for an arbitrary hash function H) ---- *)
+Theorem C01_accessors_report_decoded :
+  forall (H : bytes -> bytes) bs f t oc,
+    canonical bs = true -> decode_fields_spec bs = Some f -> scripts_ok f -> tx_from_bytes bs = Ok t ->
+    tx_size t = N.of_nat (length bs) /\ tx_id H t = rev (H bs)
+    /\ version t = f_version f /\ locktime t = f_locktime f
+    /\ map prev_tx_id (inputs t) = map f_prev (f_ins f) /\ map vout (inputs t) = map f_vout (f_ins f)
+    /\ map sequence (inputs t) = map f_seq (f_ins f)
+    /\ map (fun i => to_bytes (unlocking i)) (inputs t) = map f_script (f_ins f)
+    /\ map value (outputs t) = map f_value (f_outs f)
+    /\ map (fun o => to_bytes (script_pub_key o)) (outputs t) = map f_pk (f_outs f)
+    /\ tx_outpoints t = spec_outpoints f
+    /\ tx_is_coinbase t = spec_is_coinbase f
+    /\ ((spec_total_out f < 18446744073709551616)%N -> satoshis_out oc t = Ok (spec_total_out f)).
+Proof. exact accessors_report_decoded. Qed.
+Print Assumptions C01_accessors_report_decoded.
+
+(* the same on any value (parsed or built): accessors are functions of the raw fields *)
+Theorem C01_accessors_of_fields :
+  forall (H : bytes -> bytes) t oc,
+    tx_size t = N.of_nat (length (encode_tx_spec (fields_of t))) /\ tx_id H t = rev (H (encode_tx_spec (fields_of t)))
+    /\ tx_outpoints t = spec_outpoints (fields_of t) /\ tx_is_coinbase t = spec_is_coinbase (fields_of t)
+    /\ ((spec_total_out (fields_of t) < 18446744073709551616)%N -> satoshis_out oc t = Ok (spec_total_out (fields_of t))).
+Proof.
+  intros H t oc. exact (conj (tx_size_spec t) (conj (tx_id_spec H t) (conj (tx_outpoints_spec t)
+                       (conj (tx_is_coinbase_spec t) (satoshis_out_spec oc t))))).
+Qed.
+Print Assumptions C01_accessors_of_fields.
+
+Theorem C01_is_coinbase_iff :
+  forall t, tx_is_coinbase t = true <->
+            exists i, inputs t = [i] /\ prev_tx_id i = repeat x00 32 /\ vout i = 4294967295%N.
+Proof. exact tx_is_coinbase_iff. Qed.
+Print Assumptions C01_is_coinbase_iff.
+
+(* known finding `satoshis-out-overflow`: from 2^64 on the accessor cannot report the total (it panics in the
+   overflow-checking profile); clause 6 carries the guard *)
+Theorem C01_satoshis_out_overflow_refuted :
+  forall t, (18446744073709551616 <= spec_total_out (fields_of t))%N -> satoshis_out true t = Panic.
+Proof. exact satoshis_out_overflow. Qed.
+Print Assumptions C01_satoshis_out_overflow_refuted.
+
+(* ---- 7. construction API: Transaction::new; (TxIn::new; add_input)*; (TxOut::new; add_output)* ---------- *)
+Theorem C01_construction_api :
+  forall ver lt ins outs,
+    tx_bytes (build ver lt ins outs) = encode_tx_spec (mk_fields ver (map api_in_fields ins) (map api_out_fields outs) lt).
+Proof. exact construction_api. Qed.
+Print Assumptions C01_construction_api.
+Theorem C01_construction_api_same_bytes :
+  forall t, tx_bytes (build (version t) (locktime t) (map api_of_in (inputs t)) (map api_of_out (outputs t))) = tx_bytes t.
+Proof. exact construction_api_same_bytes. Qed.
+Print Assumptions C01_construction_api_same_bytes.
+
+(* ---- non-vacuity ------------------------------------------------------------------------------------- *)
+Definition hexb (s : string) : bytes := match bytes_of_hex s with Some b => b | None => [] end.
+Definition sha256d (m : bytes) : bytes := sha256 (sha256 m).
+
+(* the genesis coinbase transaction *)
+Definition genesis : bytes := hexb
+  "01000000010000000000000000000000000000000000000000000000000000000000000000ffffffff4d04ffff001d0104455468652054696d65732030332f4a616e2f32303039204368616e63656c6c6f72206f6e206272696e6b206f66207365636f6e64206261696c6f757420666f722062616e6b73ffffffff0100f2052a01000000434104678afdb0fe5548271967f1a67130b7105cd6a828e03909a67962e0ea1f61deb649f6bc3f4cef38c4f35504e51ec112de5c384df7ba0b8d578a4c702b6bf11d5fac00000000".
+
+Example C01_nonvacuous_genesis :
+  canonical genesis = true /\
+  exists f t, decode_fields_spec genesis = Some f /\ scripts_ok f /\ tx_from_bytes genesis = Ok t /\ tx_bytes t = genesis
+    /\ tx_is_coinbase t = true /\ satoshis_out true t = Ok 5000000000%N
+    /\ hex_of_bytes (tx_id sha256d t) = "4a5e1e4baab89f3a32518a88c31bc87f618f76673e2cc77ab2127b7afdeda33b".
+Proof.
+  split; [vm_compute; reflexivity|]. eexists. eexists.
+  split; [vm_compute; reflexivity|].
+  split.
+  { split; cbn [f_ins f_outs].
+    - constructor; [|constructor]. intros Hn. vm_compute in Hn. discriminate.
+    - constructor; [|constructor]. split; [eexists; vm_compute; reflexivity | vm_compute; reflexivity]. }
+  split; [vm_compute; reflexivity|]. repeat split; vm_compute; reflexivity.
+Qed.
+
+(* a mainnet transaction with two inputs and two outputs (tests/transaction.rs) *)
+Definition mainnet_tx : bytes := hexb
+  "01000000029e8d016a7b0dc49a325922d05da1f916d1e4d4f0cb840c9727f3d22ce8d1363f000000008c493046022100e9318720bee5425378b4763b0427158b1051eec8b08442ce3fbfbf7b30202a44022100d4172239ebd701dae2fbaaccd9f038e7ca166707333427e3fb2a2865b19a7f27014104510c67f46d2cbb29476d1f0b794be4cb549ea59ab9cc1e731969a7bf5be95f7ad5e7f904e5ccf50a9dc1714df00fbeb794aa27aaff33260c1032d931a75c56f2ffffffffa3195e7a1ab665473ff717814f6881485dc8759bebe97e31c301ffe7933a656f020000008b48304502201c282f35f3e02a1f32d2089265ad4b561f07ea3c288169dedcf2f785e6065efa022100e8db18aadacb382eed13ee04708f00ba0a9c40e3b21cf91da8859d0f7d99e0c50141042b409e1ebbb43875be5edde9c452c82c01e3903d38fa4fd89f3887a52cb8aea9dc8aec7e2c9d5b3609c03eb16259a2537135a1bf0f9c5fbbcbdbaf83ba402442ffffffff02206b1000000000001976a91420bb5c3bfaef0231dc05190e7f1c8e22e098991e88acf0ca0100000000001976a9149e3e2d23973a04ec1b02be97c30ab9f2f27c3b2c88ac00000000".
+
+Example C01_nonvacuous_mainnet :
+  canonical mainnet_tx = true /\
+  exists f t, decode_fields_spec mainnet_tx = Some f /\ scripts_ok f /\ tx_from_bytes mainnet_tx = Ok t /\ tx_bytes t = mainnet_tx
+    /\ length (inputs t) = 2 /\ length (outputs t) = 2 /\ tx_is_coinbase t = false
+    /\ satoshis_out true t = Ok 1190000%N.
+Proof.
+  split; [vm_compute; reflexivity|]. eexists. eexists.
+  split; [vm_compute; reflexivity|].
+  split.
+  { split; cbn [f_ins f_outs]; repeat constructor; try (intros _); try (eexists; vm_compute; reflexivity); vm_compute; reflexivity. }
+  split; [vm_compute; reflexivity|]. repeat split; vm_compute; reflexivity.
+Qed.
+
+(* a non-canonical accepted byte string (count in the 3-byte form, one trailing byte) normalises *)
+Example C01_nonvacuous_noncanonical :
+  let bs := hexb "02000000fd000001e80300000000000001510000000099" in
+  canonical bs = false /\ exists t, tx_from_bytes bs = Ok t /\ tx_bytes t = hexb "020000000001e803000000000000015100000000".
+Proof. split; [vm_compute; reflexivity|]. eexists; split; vm_compute; reflexivity. Qed.
+
+(* the overflow finding has a witness: two outputs of 2^63 *)
+Example C01_overflow_witness :
+  exists t, tx_from_bytes (hexb "010000000002000000000000008001510000000000000080015100000000") = Ok t
+            /\ spec_total_out (fields_of t) = 18446744073709551616%N /\ satoshis_out true t = Panic.
+Proof. eexists; repeat split; vm_compute; reflexivity. Qed.
